@@ -30,6 +30,18 @@ enum ReplaceTgt<'a> {
     Str(String),
 }
 
+impl ReplaceOp<'_> {
+    /// Change of the text length, in bytes, when this replacement is applied
+    fn len_diff(&self) -> isize {
+        let with = match &self.with {
+            ReplaceTgt::Ref(s) => s.len(),
+            ReplaceTgt::Char(c) => c.len_utf8(),
+            ReplaceTgt::Str(s) => s.len(),
+        };
+        with as isize - self.what.len() as isize
+    }
+}
+
 pub struct InputEditor<'a> {
     replaces: &'a mut Vec<ReplaceOp<'a>>,
 }
@@ -87,6 +99,9 @@ impl<'a> InputEditor<'a> {
 // Edits are assumed to be sorted (from start to end) and non-overlapping.
 // This is not checked right now (may be we should check this in debug mode)
 // Current plugin implementations satisfy this criteria.
+//
+// Returns the length of the resulting string.
+// If it is larger than REALLY_MAX_LENGTH nothing is written to the targets (edits are still consumed).
 pub fn resolve_edits(
     source: &str,
     source_mapping: &Vec<usize>,
@@ -94,6 +109,17 @@ pub fn resolve_edits(
     target_mapping: &mut Vec<usize>,
     edits: &mut Vec<ReplaceOp>,
 ) -> usize {
+    // The limit applies to the result as a whole and not to a partially edited string:
+    // edits which shorten the string can follow edits which make it longer.
+    // The resulting length is known in advance, so a too long result is never materialized.
+    let new_len = edits
+        .iter()
+        .fold(source.len() as isize, |len, edit| len + edit.len_diff());
+    if new_len > REALLY_MAX_LENGTH as isize {
+        edits.clear();
+        return new_len as usize;
+    }
+
     let mut start: usize = 0;
     let mut cur_len: isize = source.len() as isize;
     for edit in edits.drain(..) {
@@ -113,9 +139,6 @@ pub fn resolve_edits(
                 c.encode_utf8(&mut [0; 4]),
             ),
         };
-        if cur_len > REALLY_MAX_LENGTH as isize {
-            return cur_len as usize;
-        }
     }
     target.push_str(&source[start..]);
     target_mapping.extend(source_mapping[start..].iter());
